@@ -339,7 +339,7 @@ pub struct Limits {
 }
 
 pub fn n_workers() -> usize {
-    std::env::var("VCHECK_WORKERS").ok().and_then(|s| s.parse().ok()).unwrap_or(14)
+    std::env::var("VCHECK_WORKERS").ok().and_then(|s| s.parse().ok()).unwrap_or(16)
 }
 
 /// Explores every schedule of `spec` with at most `spec.bound` preemptions, in parallel
